@@ -122,7 +122,8 @@ Theorem roundtrip_ranges regof like (hs : list hold_row) latest rg P K T dsP B1 
     run exact None (map (hold_tx like) hs ++ K' ++ T) = (dsG ++ dsK' ++ dsT, None)
     /\ map (fun d => (s_sh (d_post d), s_acb (d_post d))) dsG
        = map (fun h : hold_row => (s_sh (snd (fst h)), s_acb (snd (fst h)))) hs
-    /\ map d_post dsK' = map d_post dsK /\ map d_gain dsK' = map d_gain dsK.
+    /\ map d_post dsK' = map d_post dsK /\ map d_gain dsK' = map d_gain dsK
+    /\ Forall (fun d => exists g, In g (map (hold_tx like) hs ++ K') /\ d_sd d = t_sd g) (dsG ++ dsK').
 Proof.
   intros Hsort HP HK HT Hrg Hl1 Hl2 Hnd HF Htot Hobs Hgood Hdated HK1 Hk Hnz Hsp.
   (* the whole run *)
